@@ -25,9 +25,12 @@ def build(job):
         os.makedirs(root)
         git(root, "init", "-q", "-b", "main")
         proj = project.Project(root, vcs=None)
+        keys = {f[0]: (f[3] if len(f) > 3 else f[0]) for f in files}
+        files = [f[:3] for f in files]
         pattern_files = [(n, s) for n, pat, s in files if pat]
-        # the configured path of a renamed pattern file is its NEW name
-        proj.write("bumpver.toml", project.bumpver_toml(OLD, "MAJOR.MINOR.PATCH", [(n, ["{version}"]) for n, _s in pattern_files], commit=True))
+        # the configured path of a renamed pattern file is its NEW name; the KEY under which it is configured may be another spelling of the
+        # path (./name, a glob that matches only it): which file carries a pattern does not depend on the spelling
+        proj.write("bumpver.toml", project.bumpver_toml(OLD, "MAJOR.MINOR.PATCH", [(keys[n], ["{version}"]) for n, _s in pattern_files], commit=True))
         for n, pat, s in files:
             if s in ("A ", "AM", "??"):
                 continue
@@ -83,7 +86,8 @@ def build(job):
     paths = [n for n, _s in pattern_files] + ["bumpver.toml"]
     return dict(ev="dirty", tool="git", lines=[glue.cp(ln) for ln in lines], paths=[glue.cp(p) for p in paths], allow=allow, exit=r.exit, changed=before != after if r.exit != 0 else False,
                 sweep=sweep, committed=committed, exc=r.exc or "", states={n: s for n, _p, s in files},
-                dbg="files=%s cfg=%s allow=%s status=%r -> exit=%s committed=%s" % ([(n, "pattern" if p else "other", s) for n, p, s in files], cfg_state, allow, lines, r.exit, committed))
+                spelled=sorted(set(k for n, k in keys.items() if k != n)),
+                dbg="files=%s cfg=%s allow=%s status=%r -> exit=%s committed=%s" % ([(keys[n], "pattern" if p else "other", s) for n, p, s in files], cfg_state, allow, lines, r.exit, committed))
 
 
 def run(ctx):
@@ -100,15 +104,20 @@ def run(ctx):
         for pat in (True, False):
             for allow in (False, True):
                 jobs.append(([("pat.txt", True, s if pat else "clean"), ("other.txt", False, "clean" if pat else s)], allow, len(jobs), "clean"))
+    for s in STATES:                                      # the same with the pattern file configured under another spelling of its path
+        for allow in (False, True):
+            for key in ("./pat.txt", "pat.tx?"):
+                jobs.append(([("pat.txt", True, s, key), ("other.txt", False, "clean")], allow, len(jobs), "clean"))
     names = [("pat.txt", True), ("src_p2.py", True), ("other.txt", False), ("M x.txt", False), ("notes.md", False)]
+    spell = {"pat.txt": ["pat.txt", "pat.txt", "./pat.txt", "pat.tx?", ".//pat.txt"], "src_p2.py": ["src_p2.py", "src_p2.py", "./src_p2.py", "src_*.py"]}
     for i in range(ctx.pick(160, 1300)):
         k = rng.randrange(2, len(names) + 1)
-        files = [(n, p, rng.choice(STATES) if rng.random() < 0.5 else "clean") for n, p in names[:k]]
+        files = [(n, p, rng.choice(STATES) if rng.random() < 0.5 else "clean", rng.choice(spell.get(n, [n]))) for n, p in names[:k]]
         jobs.append((files, rng.random() < 0.5, 1000 + i, rng.choice(["clean", "clean", "clean", " M"])))
     events = drive.pmap(build, jobs, hooks=False, chunksize=2)
     for i, e in enumerate(events):
         e["id"] = i + 1
-    fails, st = tlc.validate_events("Trace_Update", [{k: v for k, v in e.items() if k not in ("dbg", "exc", "committed", "states")} for e in events], name="C11")
+    fails, st = tlc.validate_events("Trace_Update", [{k: v for k, v in e.items() if k not in ("dbg", "exc", "committed", "states", "spelled")} for e in events], name="C11")
     ctx.add_trace(st)
     by_id = {e["id"]: e for e in events}
     for f in fails:
@@ -117,7 +126,7 @@ def run(ctx):
             ctx.divergence(f["clause"], e["dbg"])
             continue
         pat_states = sorted(set(s for n, s in e["states"].items() if n in ("pat.txt", "src_p2.py") and s != "clean"))
-        ctx.violation(dict(clause=f["clause"], allow=e["allow"], pattern_file_states=pat_states, leading_blank=any(s.startswith(" ") for s in pat_states), rename=("R " in pat_states or "RM" in pat_states)),
+        ctx.violation(dict(clause=f["clause"], allow=e["allow"], pattern_file_states=pat_states, leading_blank=any(s.startswith(" ") for s in pat_states), rename=("R " in pat_states or "RM" in pat_states), respelled_key=bool(e["spelled"])),
                       case=dict(what=e["dbg"], exc=e["exc"][:200]))
     ctx.count("repositories", len(events))
     ctx.count("blocked_runs", sum(1 for e in events if e["exit"] != 0))
@@ -126,7 +135,7 @@ def run(ctx):
     for e in events:
         ctx.nontriv(e["dbg"])
     ctx.rule = ("real git repositories: the 11 x 2 x 2 single-file matrix (state x pattern/unrelated x --allow-dirty) and seeded multi-file working trees (2..5 files, config file "
-                "sometimes modified, a file name that looks like a status line); status text is real git's; the bump commit's content is compared with the previous commit's; "
+                "sometimes modified, a file name that looks like a status line, pattern files configured as name, ./name, .//name or a glob matching only them); status text is real git's; the bump commit's content is compared with the previous commit's; "
                 "non-trivial = distinct working trees")
     for e in events[2:5]:
         ctx.sample(dict(what=e["dbg"]))
